@@ -1312,12 +1312,23 @@ static void run_ops(op_t *ops, int nops)
             call_prepare(&tb.calls[0], &ops[i + 1]);
             call_prepare(&cc, &ops[i + 2]);
             pthread_t tid;
+            /* optional third argument: that many further threads make the same call at the same time */
+            int nmore = op->n > 2 ? arg_int(&op->a[2]) : 0;
+            if (nmore > 4) nmore = 4;
+            thr_t tm[4]; pthread_t mtid[4]; volatile int mdone[4] = {0};
+            memset(tm, 0, sizeof tm);
             pthread_create(&tid, NULL, thr_main, &tb);
+            for (int q = 0; q < nmore; q++) {
+                tm[q].calls = calloc(1, sizeof(call_t)); tm[q].n = 1; tm[q].coop_index = -1; tm[q].done = &mdone[q]; tm[q].park = 3;
+                call_prepare(&tm[q].calls[0], &ops[i + 1]);
+                pthread_create(&mtid[q], NULL, thr_main, &tm[q]);
+            }
             for (int ms = 0; ms < 5000 && !tb.t0; ms++) usleep(1000);
             usleep(pre_ms * 1000);
             fflush(NULL);
             long long t_fork = now_us();
             int b_done_at_fork = done;
+            for (int q = 0; q < nmore; q++) if (!mdone[q]) b_done_at_fork = 0;
             pid_t pid = fork();
             if (pid == 0) {
                 g_no_drain = 1;
@@ -1347,8 +1358,8 @@ static void run_ops(op_t *ops, int nops)
                 else if (!(WIFEXITED(st) && WEXITSTATUS(st) == 0)) status = "abnormal";
             }
             int joined = 0;
-            for (int ms = 0; ms < 15000; ms++) { if (done) { joined = 1; break; } usleep(1000); }
-            if (joined) pthread_join(tid, NULL);
+            for (int ms = 0; ms < 15000; ms++) { int all = done; for (int q = 0; q < nmore; q++) all = all && mdone[q]; if (all) { joined = 1; break; } usleep(1000); }
+            if (joined) { pthread_join(tid, NULL); for (int q = 0; q < nmore; q++) pthread_join(mtid[q], NULL); }
             { ev_t e = {0}; ev_begin(&e, 'j'); ev_int(&e, pre_ms); ev_int(&e, !b_done_at_fork); ev_int(&e, (int) ((tb.t1 - tb.t0) / 1000)); ev_str(&e, status);
               ev_int(&e, joined); ev_int(&e, depth); ev_int(&e, (int) ((t_fork - tb.t0) / 1000)); ev_int(&e, (int) pid); ev_end(&e); ev_free(&e); }
             i += 2;
